@@ -262,6 +262,10 @@ impl<'a> World<'a> {
                 Some(e) if e.cluster >= 2 => fatspec::chain(&self.vols[dh.vol].fat, &self.vols[dh.vol].geom, e.cluster).0,
                 _ => Vec::new(),
             };
+            // C05: truncating a file makes its clusters available again (the first one may stay with the entry)
+            if ch.len() > 1 {
+                self.violate("C05", "truncate-kept-clusters", mode_name(m), format!("{} clusters still hang off the entry after the truncating open", ch.len()));
+            }
             if let Some((_, fh)) = self.fslots[fs_slot as usize].cur.as_mut() {
                 fh.chain = ch;
             }
@@ -982,7 +986,13 @@ impl<'a> World<'a> {
             6 => ("file_seek_from_current", got(self.call(|fs| fs.seek_cur(h, 0, 0).map(|_| ())))),
             7 => ("file_seek_from_end", got(self.call(|fs| fs.seek_end(h, 0, 0).map(|_| ())))),
             8 => ("file_length", got(self.call(|fs| fs.length(h, 0).map(|_| ())))),
-            _ => ("file_offset", got(self.call(|fs| fs.offset(h, 0).map(|_| ())))),
+            _ => {
+                if zero {
+                    ("stream_position", got(self.call(|fs| fs.stream_pos(h).map(|_| ()))))
+                } else {
+                    ("file_offset", got(self.call(|fs| fs.offset(h, 0).map(|_| ()))))
+                }
+            }
         };
         let gn = r.name();
         self.judge(opk, name, gn, "closed file handle", false, &["BadHandle"]);
